@@ -94,14 +94,25 @@ static bytes write_image(const Plan &p, const Model<Idx,V> &M, std::vector<size_
         std::ofstream o(f.path.c_str(), std::ios::binary);
         size_t n = (size_t)M.n; amgcl::io::write(o, n);
         if (!M.ptr.empty()) amgcl::io::write(o, M.ptr);      // the library's own vector writer
-        if (!M.col.empty()) amgcl::io::write(o, M.col);
-        if (!M.val.empty()) amgcl::io::write(o, M.val);
+        // a CRS file may list the entries of a row in any order (the reader sorts them): shuffled variant
+        std::vector<Idx> wc(M.col); std::vector<V> wv(M.val);
+        if (p.get("shuffle", 0)) { sim::rng sr((uint64_t)p.get("mseed"), "c19shuffle"); for (long i = 0; i < M.n; ++i) for (Idx a = M.ptr[i+1] - 1; a > M.ptr[i]; --a) { Idx b = M.ptr[i] + (Idx)sr.below((uint64_t)(a - M.ptr[i] + 1)); std::swap(wc[a], wc[b]); std::swap(wv[a], wv[b]); } }
+        if (!wc.empty()) amgcl::io::write(o, wc);
+        if (!wv.empty()) amgcl::io::write(o, wv);
     } else {
         std::ofstream o(f.path.c_str(), std::ios::binary);
         size_t n = (size_t)M.n, m = (size_t)M.m; amgcl::io::write(o, n); amgcl::io::write(o, m);
         if (!M.dense.empty()) amgcl::io::write(o, M.dense);
     }
     bytes b = f.get();
+    if (fmt == MM_SPARSE && p.get("shuffle", 0)) {
+        // coordinate entries may come in any order: permute the data lines
+        std::vector<size_t> ls = simfs::line_starts(b);
+        if (ls.size() > 3) { std::vector<std::string> lines; for (size_t i = 2; i < ls.size(); ++i) { size_t e = i + 1 < ls.size() ? ls[i+1] : b.size(); lines.push_back(std::string(b.begin() + ls[i], b.begin() + e)); }
+            if (!lines.empty() && (lines.back().empty() || lines.back().back() != '\n')) lines.back() += "\n";
+            sim::rng sr((uint64_t)p.get("mseed"), "c19shuffle"); for (size_t i = lines.size() - 1; i > 0; --i) std::swap(lines[i], lines[sr.below(i + 1)]);
+            bytes nb(b.begin(), b.begin() + ls[2]); for (size_t i = 0; i < lines.size(); ++i) nb.insert(nb.end(), lines[i].begin(), lines[i].end()); b.swap(nb); }
+    }
     if (data_line_starts && (fmt == MM_SPARSE || fmt == MM_DENSE)) {
         std::vector<size_t> ls = simfs::line_starts(b);
         for (size_t i = 2; i < ls.size(); ++i) data_line_starts->push_back(ls[i]);   // banner, size line, then data
@@ -369,7 +380,7 @@ Plan generate(uint64_t seed, uint64_t run, bool thorough) {
     p.set("m", r.range(fmt == MM_DENSE || fmt == BIN_DENSE ? 1 : 1, mode == M_TRUNCATE_ALL ? 4 : 12), 1);
     p.set("density", r.range(0, 70), 0);
     p.set("mseed", (long)(r.next() >> 16), 0);
-    p.set("special", r.range(0, 1), 0);
+    p.set("special", r.range(0, 1), 0); p.set("shuffle", r.range(0, 1), 0);
     p.set("symmetric", (fmt == MM_SPARSE && r.chance(0.2)) ? 1 : 0, 0);
     p.set("range", r.range(0, 1), 0);
     p.set("ra", r.range(0, nmax), 0);
@@ -411,7 +422,7 @@ Result execute(const Plan &p) {
     res.key = key;
     js::Value s = js::Value::object();
     s.set("mode", mode_names[p.get("mode")]); s.set("format", fmt_names[p.get("fmt")]); s.set("value_type", vt_names[vt]); s.set("index", i32 ? "int" : "ptrdiff_t");
-    s.set("n", p.get("n")); s.set("m", p.get("m")); s.set("symmetric", p.get("symmetric")); s.set("special_values", p.get("special"));
+    s.set("n", p.get("n")); s.set("m", p.get("m")); s.set("symmetric", p.get("symmetric")); s.set("special_values", p.get("special")); s.set("entries_shuffled", p.get("shuffle"));
     if (p.get("range")) { s.set("row_range_begin", p.get("ra")); s.set("row_range_end", p.get("rb")); }
     js::Value ops = js::Value::array(); for (size_t i = 0; i < p.ops.size(); ++i) { js::Value o = js::Value::array(); o.push(p.ops[i].kind); for (size_t k = 0; k < p.ops[i].a.size(); ++k) o.push(p.ops[i].a[k]); ops.push(o); }
     s.set("fault_ops", ops);
